@@ -38,6 +38,8 @@ func runC10(c *Ctx) {
 	const pkg = "ds"
 	info := p.Pkg(pkg).TypesInfo
 	checkListCore(r, p)
+	// bulk operations of both flavours walk the other list's snapshot completely
+	checkBackwardLoopsCoverZero(r, p, pkg, append(p.Methods(pkg, "threadSafeList"), p.Methods(pkg, "list")...))
 	// ---- (4) decorator
 	checkOverride(r, p, "decorator/declares-all", pkg, "threadSafeList", "List")
 	checkGuards(r, p, "lock/guarded-by", []GuardRow{{Pkg: pkg, Type: "threadSafeList", Mutex: "mutex", Fields: []string{"list"},
